@@ -305,10 +305,14 @@ impl ProofGraph {
             if changed && !node.valid {
                 self.stats.invalidations += 1;
 
-                // Get dependents and propagate recursively
-                let further_deps = node.dependents.clone();
-                for further_dep in further_deps {
-                    self.propagate_invalidation(&further_dep, dependent_handle);
+                // Propagate recursively through the reverse dependency index: it is
+                // complete, whereas `node.dependents` misses every dependent that was
+                // inserted before this node existed.
+                let further_deps = self.dependencies.get(dependent_handle).cloned();
+                if let Some(further_deps) = further_deps {
+                    for further_dep in further_deps {
+                        self.propagate_invalidation(&further_dep, dependent_handle);
+                    }
                 }
             }
         }
